@@ -162,6 +162,25 @@ def main():
         raise SystemExit('gen_ffisizes: FieldBlob.struct_offset not found')
     offset_decl = norm(fm.group(0))
 
+    # ---- girparser.c: the two places that decide what giroffsets.c sees for a field
+    #  * start_function: a <callback> inside a <field> is embedded for record / class fields and turns the
+    #    field into a gpointer for union / boxed / interface fields
+    #  * start_type: when a C array typed field is NOT a pointer (fixed-size; or no length and no pointer c:type)
+    with open(os.path.join(REPO, 'girepository', 'girparser.c')) as f:
+        psrc = strip_comments(f.read())
+    fb = norm(function_body(psrc, 'start_function'))
+    try:
+        i = fb.index('case STATE_CLASS_FIELD:')
+        inline_cb = fb[i:fb.index('default:', i)].strip()
+    except ValueError:
+        raise SystemExit('gen_ffisizes: the field-state cases of start_function were not found in girparser.c')
+    tb = norm(function_body(psrc, 'start_type'))
+    try:
+        i = tb.index('if (typenode->has_size && ctx->current_typed->type == G_IR_NODE_FIELD)')
+        array_ptr = tb[i:tb.index('} else {', i)].strip()
+    except ValueError:
+        raise SystemExit('gen_ffisizes: the is_pointer decision for array fields was not found in start_type')
+
     # ---- the nine probe enums, copied textually --------------------------------
     enums = re.findall(r'typedef\s+enum\s*\{[^}]*\}\s*Enum(\d)\s*;', src)
     enum_text = re.findall(r'(typedef\s+enum\s*\{[^}]*\}\s*Enum\d\s*;)', src)
@@ -314,6 +333,11 @@ def computeDispatchShape : List String := %s
 def fieldOffsetStoreShape : String := %s
 def fieldOffsetDeclShape : String := %s
 
+/-- girparser.c start_function: what a `<callback>` inside a `<field>` becomes, per container -/
+def inlineCallbackShape : String := %s
+/-- girparser.c start_type: when a C array typed field is not a pointer (is_pointer starts TRUE) -/
+def arrayFieldPointerShape : String := %s
+
 end GIVerif.Gen
 ''' % (lst(['(%d, %s, %d, %d, %d)' % (t, lean_str(n), k, s, a) for t, n, k, s, a in tags]),
        ptr[0], ptr[1],
@@ -329,7 +353,8 @@ end GIVerif.Gen
        lean_str(union_init), lst([lean_str(s) for s in union_ok]), lean_str(union_tail), lean_str(union_loop),
        lean_str(enum_fold), lean_str(etxt),
        lean_str(esabody), lean_str(fbody), lean_str(tbody), lean_str(ibody),
-       lst([lean_str(x) for x in dispatch]), lean_str(offset_store), lean_str(offset_decl))
+       lst([lean_str(x) for x in dispatch]), lean_str(offset_store), lean_str(offset_decl),
+       lean_str(inline_cb), lean_str(array_ptr))
     text = text.replace(':= -', ':= -')  # negative literals are fine for Int
     path, digest, changed = write_if_changed('FfiSizes.lean', text)
     print('gen_ffisizes: %s sha256=%s changed=%s tags=%d probes=%d' % (path, digest[:12], changed, len(tags), len(probes)))
